@@ -11,22 +11,27 @@ EXTENDS CombinatorOps, TLC, Json
 
 Trace == ndJsonDeserialize("trace.ndjson")
 
-VARIABLES l, st
-vars == <<l, st>>
+(* A "combine" line is consumed in two TLC steps: Eval stores the admissible paths (computed once, by
+   definition) in the state variable `cur`; Judge compares them with what the real code returned.
+   (TLC does not cache LET definitions inside actions: everything referenced more than once must be
+   a state variable to be evaluated once.)                                                       *)
+VARIABLES l, st, cur, phase
+vars == <<l, st, cur, phase>>
 R == Trace[l]
 
-Init == l = 1 /\ st = [cases |-> 0, paths |-> 0, choices |-> 0, loopy |-> 0, dups |-> 0, nontrivial |-> 0]
+Init == l = 1 /\ cur = {} /\ phase = 0
+        /\ st = [cases |-> 0, paths |-> 0, choices |-> 0, loopy |-> 0, dups |-> 0, nontrivial |-> 0]
 
-HopsProj(hs) == [j \in 1..Len(hs) |-> [in |-> hs[j].in, eg |-> hs[j].eg, exp |-> hs[j].exp, mac |-> hs[j].mac]]
-InfoNoSegID(is) == [j \in 1..Len(is) |-> [cd |-> is[j].cd, peer |-> is[j].peer, ts |-> is[j].ts]]
+Eval == /\ cur' = {[ch |-> ch, q |-> PathOf(ch, R.ups, R.cores, R.downs), sh |-> ChoiceShape(ch, R.ups, R.cores, R.downs)] :
+                      ch \in PathChoices(R.src, R.dst, R.ups, R.cores, R.downs)}
+        /\ phase' = 1 /\ UNCHANGED <<l, st>>
+
+HopsProj(hs) == Strict([j \in 1..Len(hs) |-> [in |-> hs[j].in, eg |-> hs[j].eg, exp |-> hs[j].exp, mac |-> hs[j].mac]])
+InfoNoSegID(is) == Strict([j \in 1..Len(is) |-> [cd |-> is[j].cd, peer |-> is[j].peer, ts |-> is[j].ts]])
 W(p) == Len(p.intfs) \div 2
 
 Judge ==
-    LET ups == R.ups
-        cores == R.cores
-        downs == R.downs
-        CH == PathChoices(R.src, R.dst, ups, cores, downs)
-        Q == {[ch |-> ch, q |-> PathOf(ch, ups, cores, downs)] : ch \in CH}
+    LET Q == cur
         Good == {x \in Q : ~Loopy(x.q.intfs)}
         P == R.paths
         np == Len(P)
@@ -55,7 +60,7 @@ Judge ==
         \cup (IF \E j \in 1..(np - 1) : W(P[j]) > W(P[j + 1]) THEN {"C28:order:weight-decreases"} ELSE {})
         missing == {x \in Good : \A j \in 1..np : P[j].intfs # x.q.intfs}
         keys == UNION {PathKeys(j) : j \in 1..np} \cup cross
-                \cup {"C29:missing:" \o ChoiceShape(x.ch, ups, cores, downs) : x \in missing}
+                \cup {"C29:missing:" \o x.sh : x \in missing}
         drift == (IF \E j \in 1..np : P[j].w # W(P[j]) THEN {"weight-field-is-not-the-number-of-links"} ELSE {})
             \cup (IF \E j \in 1..np : P[j].expfrac # 0 \/ P[j].curr # <<0, 0>> THEN {"expiry-fraction-or-pointers"} ELSE {})
             \cup (IF \E j \in 1..np : \E h \in 1..Len(P[j].hops) : P[j].hops[h].alert THEN {"router-alert-set"} ELSE {})
@@ -69,11 +74,13 @@ Judge ==
                   nontrivial |-> st.nontrivial + (IF Cardinality(Q) > 0 THEN 1 ELSE 0)]
 
 Step == /\ l <= Len(Trace)
-        /\ l' = l + 1
-        /\ CASE R.ev = "reset" -> UNCHANGED st
-             [] R.ev = "combine" -> Judge
-             [] R.ev = "panic" -> PrintT(<<"VERIF-BAD", l, "C28:panic">>) /\ UNCHANGED st
-             [] OTHER -> PrintT(<<"VERIF-BAD", l, "C28:no-spec-action:" \o R.ev>>) /\ UNCHANGED st
+        /\ IF R.ev = "combine" /\ phase = 0 THEN Eval
+           ELSE /\ l' = l + 1
+                /\ cur' = {} /\ phase' = 0
+                /\ CASE R.ev = "reset" -> UNCHANGED st
+                     [] R.ev = "combine" -> Judge
+                     [] R.ev = "panic" -> PrintT(<<"VERIF-BAD", l, "C28:panic">>) /\ UNCHANGED st
+                     [] OTHER -> PrintT(<<"VERIF-BAD", l, "C28:no-spec-action:" \o R.ev>>) /\ UNCHANGED st
 
 Done == /\ l = Len(Trace) + 1
         /\ PrintT(<<"VERIF-STAT", "cases", st.cases>>)
